@@ -82,6 +82,16 @@ KEYS_UNI = ['√©', '–∫–ª—é—á', 'ÂêçÂâç', '√ü', 'ƒ∞', 'na√Øve_key', '√ún√Ø', 'caf√
 KEYS_SPECIAL = ['data', 'container', 'list', 'any', 'field_1', 's', 'datas', 'Data1', 'data1', 'optional', 'union',
                 'from_dict', 'to_dict', 'self', 'cls', 'json_wizard', 'JSONWizard', 'dataclass', 'date', 'int', 'str']
 
+# plural / irregular / uncountable nouns: at least one key per rule of English.singularize (several rules twice),
+# in snake, camel and Pascal spellings; rules with optional groups rewrite their template per call
+KEYS_PLURAL = ['quizzes', 'matrices', 'vertices', 'indices', 'oxen', 'aliases', 'statuses', 'octopi', 'viri', 'crises', 'axes',
+               'testes', 'shoes', 'potatoes', 'heroes', 'buses', 'mice', 'lice', 'boxes', 'churches', 'addresses', 'dishes',
+               'movies', 'series', 'queries', 'companies', 'wolves', 'halves', 'natives', 'hives', 'wives', 'knives',
+               'analyses', 'analysis', 'metaAnalyses', 'psychoanalyses', 'databases', 'diagnoses', 'parentheses',
+               'prognoses', 'synopses', 'theses', 'hypotheses', 'data', 'media', 'bacteria', 'news', 'items', 'tags',
+               'equipment', 'information', 'rice', 'money', 'species', 'fish', 'sheep', 'sms', 'people', 'men', 'children',
+               'sexes', 'moves', 'userDatabases', 'test_theses', 'OpenDiagnoses', 'my_analyses', 'salesPeople']
+
 STR_PLAIN = ['x', 'hello world', '', 'a:b', 'abc', 'N/A', '12:', 'foo:bar:baz', 'caf√©', 'X']
 STR_DATE = ['2020-01-01', '20200101', '2021-12-31', '2020-13-01', '2020-W01-1', '1999-02-28']
 STR_TIME = ['12:30', '12:30:00', '10:00:00.123', '25:00', '1:2', '23:59:59']
@@ -115,22 +125,24 @@ def pick_keys(r, n, pool):
 
 
 # -- schema-instantiated documents: a schema is drawn first, every sibling follows it
-def gen_schema(r, depth, pool):
+def gen_schema(r, depth, pool, deep=False):
+    """(kind, payload, nullable): every node - scalar, object, array of objects, array of scalars - may be
+    null in some siblings"""
     t = r.random()
-    if depth <= 0 or t < 0.5:
-        return ('scalar', r.choice(['int', 'float', 'bool', 'plain', 'date', 'time', 'dt', 'num', 'boolstr', 'int', 'plain']),
-                r.random() < 0.2)
-    if t < 0.7:
-        return ('obj', [(k, gen_schema(r, depth - 1, pool)) for k in pick_keys(r, r.choice([0, 1, 2, 3]), pool)])
+    nullable = r.random() < (0.35 if deep else 0.2)
+    if depth <= 0 or t < (0.25 if deep else 0.5):
+        return ('scalar', r.choice(['int', 'float', 'bool', 'plain', 'date', 'time', 'dt', 'num', 'boolstr', 'int', 'plain']), nullable)
+    if t < (0.5 if deep else 0.7):
+        return ('obj', [(k, gen_schema(r, depth - 1, pool, deep)) for k in pick_keys(r, r.choice([0, 1, 2, 3]), pool)], nullable)
     if t < 0.9:
-        return ('arr_obj', [(k, gen_schema(r, depth - 1, pool)) for k in pick_keys(r, r.choice([1, 2, 3]), pool)])
-    return ('arr', gen_schema(r, 0, pool))
+        return ('arr_obj', [(k, gen_schema(r, depth - 1, pool, deep)) for k in pick_keys(r, r.choice([1, 2, 3]), pool)], nullable)
+    return ('arr', gen_schema(r, 0, pool), nullable)
 
 
-def inst_schema(r, s):
+def inst_schema(r, s, top=False):
+    if s[2] and not top and r.random() < 0.3:
+        return None
     if s[0] == 'scalar':
-        if s[2] and r.random() < 0.4:
-            return None
         return gen_scalar(r, s[1])
     if s[0] == 'obj':
         return {k: inst_schema(r, sub) for k, sub in s[1]}
@@ -140,12 +152,54 @@ def inst_schema(r, s):
 
 
 def gen_tame(r):
-    pool = KEYS_TAME if r.random() < 0.8 else KEYS_TAME + KEYS_UNI[:3] + ['_1', 'a b', 'match']
-    depth = r.choice([1, 2, 2, 3])
-    fields = [(k, gen_schema(r, depth, pool)) for k in pick_keys(r, r.choice([1, 2, 3, 4]), pool)]
+    u = r.random()
+    pool = KEYS_TAME if u < 0.55 else KEYS_TAME[:8] + KEYS_PLURAL if u < 0.85 else KEYS_TAME + KEYS_UNI[:3] + ['_1', 'a b', 'match']
+    deep = r.random() < 0.45          # chains list -> object -> list -> object with nullable nodes
+    depth = 3 if deep else r.choice([1, 2, 2, 3])
+    fields = [(k, gen_schema(r, depth, pool, deep)) for k in pick_keys(r, r.choice([1, 2] if deep else [1, 2, 3, 4]), pool)]
     if r.random() < 0.3:
         return [{k: inst_schema(r, s) for k, s in fields} for _ in range(r.choice([0, 1, 2, 3]))]
     return {k: inst_schema(r, s) for k, s in fields}
+
+
+def null_placement_docs():
+    """Exhaustive small family: root -> groups[2] -> items[2] -> detail, the leaf `detail` being an object, a list of
+    ints, a list of objects, a date string or an int, with null in every subset of the four sibling positions; the same
+    with `items` (the inner list) or a whole group element replaced by null in every subset of positions; and the
+    one-level versions.  Null must make the field Optional wherever among the merged siblings it occurs."""
+    leaves = [lambda i: {'x': i}, lambda i: [i], lambda i: [{'y': i}], lambda i: '2020-01-01', lambda i: i]
+    docs = []
+    for leaf in leaves:
+        for mask in range(16):
+            cells = [None if mask >> i & 1 else leaf(i + 1) for i in range(4)]
+            docs.append({'groups': [{'items': [{'detail': cells[0]}, {'detail': cells[1]}]},
+                                    {'items': [{'detail': cells[2]}, {'detail': cells[3]}]}]})
+            # three-sibling variant of the seeded shape: one element in the first inner list, two in the second
+            if mask < 8:
+                docs.append({'groups': [{'items': [{'detail': cells[0]}]},
+                                        {'items': [{'detail': cells[1]}, {'detail': cells[2]}]}]})
+        for mask in range(4):
+            cells = [None if mask >> i & 1 else leaf(i + 1) for i in range(2)]
+            docs.append({'items': [{'detail': cells[0]}, {'detail': cells[1]}]})
+            docs.append([{'detail': cells[0]}, {'detail': cells[1]}])
+    for mask in range(1, 4):       # the inner list itself / a whole object null in some siblings
+        docs.append({'groups': [{'items': None if mask & 1 else [{'detail': {'x': 1}}]},
+                                {'items': None if mask & 2 else [{'detail': {'x': 2}}, {'detail': None}]}]})
+        docs.append({'groups': [{'a': {'items': None if mask & 1 else [{'d': 1}]}},
+                                {'a': {'items': None if mask & 2 else [{'d': None}]}}]})
+        docs.append({'groups': [{'a': None if mask & 1 else {'items': [{'d': 1}]}},
+                                {'a': None if mask & 2 else {'items': [{'d': None}, {'d': 2}]}}]})
+    out, seen = [], set()
+    for d in docs:
+        k = json.dumps(d)
+        if k not in seen:
+            seen.add(k)
+            out.append(d)
+    return out
+
+
+# scalar roots: generation must raise for every one of them (falsy ones included)
+SCALAR_ROOTS = [None, False, True, 0, -0.0, 0.0, '', 42, 1.5, 'abc', '2020-01-01', -1]
 
 
 # -- heterogeneous documents
@@ -211,8 +265,15 @@ def depth_of(v):
 
 def gen_docs(ctx):
     r = ctx.sub_rng('docs')
-    n = 700 if ctx.tier == 'quick' else 3500
+    n = 500 if ctx.tier == 'quick' else 3200
     docs = [(d, 'fixed') for d in FIXED_DOCS]
+    docs += [(d, 'scalar_root') for d in SCALAR_ROOTS]
+    docs += [(d, 'null_placement') for d in null_placement_docs()]
+    # every plural key as a list-of-objects key, twice per process in different surroundings
+    for i, k in enumerate(KEYS_PLURAL):
+        docs.append(({k: [{'id': 1, 'title': 't'}, {'id': 2, 'title': 'u'}]}, 'plural'))
+        docs.append(({'a': i, KEYS_PLURAL[-1 - i]: [{'x': None}, {'x': '2020-01-01'}]}, 'plural'))
+    n += len(docs)
     while len(docs) < n:
         t = r.random()
         if t < 0.40:
@@ -336,6 +397,8 @@ def regions_of(doc, fs, O):
             else:
                 group([e for l in lists for e in l], True)
 
+    if not isinstance(doc, (dict, list)):
+        return reg
     if isinstance(doc, dict):
         group([doc], False)
     else:
@@ -370,7 +433,7 @@ def name_collision(decls):
 
 
 # which failure stage each finding can explain
-EXPLAINS = {'gen': {'F14c'}, 'fields': {'F14c', 'F14g'}, 'exec': {'F14c', 'F14g', 'F14k'},
+EXPLAINS = {'scalar': set(), 'gen': {'F14c'}, 'fields': {'F14c', 'F14g'}, 'exec': {'F14c', 'F14g', 'F14k'},
             'load': {'F14b', 'F14d', 'F14e', 'F14f', 'F14g', 'F14h', 'F14i', 'F14j', 'F14k'}}
 
 
@@ -387,6 +450,16 @@ def direct_predicate(res):
     if res.get('fields') is not True:
         return 'fields', 'an object key has no field in the generated class: %r' % (res.get('fields'),)
     return None
+
+
+def case_predicate(doc, res):
+    """The property for one (document, flags): a scalar root is not a document - generation must raise
+    (the CLI then exits non-zero); an object/array root must generate, import and load."""
+    if not isinstance(doc, (dict, list)):
+        if res['gen'] == 'ok':
+            return 'scalar', 'scalar root %s accepted: generation returned source instead of raising' % json.dumps(doc)
+        return None
+    return direct_predicate(res)
 
 
 # ---------------------------------------------------------------- Coq encoders
@@ -474,9 +547,10 @@ def replay_witness(ctx, w):
         print('CLI case %r -> rc=%s out_intact=%s: %s' % (w['case'].get('input_kind'), res.get('rc'), res.get('out_intact'), bad or 'as required'))
         return bad is None
     res = ctx.impl('c19', {'cases': [{'doc': w['doc'], 'fs': w.get('fs', False), 'ex': w.get('ex', False), 'want_code': True}]})['cases'][0]
-    bad = direct_predicate(res)
+    bad = case_predicate(w['doc'], res)
     print('document %s flags fs=%s ex=%s: %s' % (json.dumps(w['doc']), w.get('fs', False), w.get('ex', False),
-                                                 bad[1] if bad else 'generated root loads the document'))
+                                                 bad[1] if bad else ('generated root loads the document' if isinstance(w['doc'], (dict, list))
+                                                                     else 'scalar root rejected (generation raises)')))
     return bad is None
 
 
@@ -502,11 +576,11 @@ def cli_cases(ctx, docs):
     r = ctx.sub_rng('cli')
     cases = []
     bad_syntax = ['{', '{"a":}', '', 'nope', '[1,', '{"a":1}}', "{'a': 1}", '{"a" 1}', '[1 2]', '\x00']
-    scalars = ['5', '"x"', 'null', 'true', '1.5', '"2020-01-01"']
+    scalars = ['null', 'false', '0', '0.0', '-0', '""', 'true', '5', '1.5', '"x"', '"2020-01-01"', ' null ']
     k = 3 if ctx.tier == 'quick' else 10
     for t in r.sample(bad_syntax, min(k + 1, len(bad_syntax))):
         cases.append({'input_kind': 'syntax', 'text': t, 'valid': False})
-    for t in r.sample(scalars, min(k, len(scalars))):
+    for t in scalars:            # every falsy and truthy scalar root, every run
         cases.append({'input_kind': 'scalar', 'text': t, 'valid': False})
     for kind in ['missing', 'directory']:
         cases.append({'input_kind': kind, 'text': None, 'valid': False})
@@ -544,11 +618,21 @@ def run(ctx):
     results = []
     for k in range(0, len(cases), B):
         results.extend(ctx.impl('c19', {'cases': cases[k:k + B]})['cases'])
-    # second pass in another order, one process: only text hashes (order independence / determinism)
-    order = list(range(len(cases)))
-    ctx.sub_rng('order').shuffle(order)
+    # second pass, ONE process, reversed order (for every pair of cases exactly one of the two passes runs A
+    # before B): only text hashes (order independence / determinism)
+    order = list(reversed(range(len(cases))))
     regen = ctx.impl('c19', {'regen': [cases[j] for j in order]})['regen']
     regen_by_case = {j: h for j, h in zip(order, regen)}
+    # third pass: a sample of cases each in its OWN interpreter (no history at all); cases whose keys go through
+    # the singularisation tables first, then a random sample
+    r3 = ctx.sub_rng('fresh')
+    plural_ix = [j for j, c in enumerate(cases) if docs[c['i']][1] == 'plural' and not c['fs'] and not c['ex']]
+    r3.shuffle(plural_ix)
+    k3 = 45 if ctx.tier == 'quick' else 200
+    fresh_ix = plural_ix[:k3 * 2 // 3]
+    fresh_ix += r3.sample(range(len(cases)), k3 - len(fresh_ix))
+    fresh = ctx.impl('c19', {'fresh': [cases[j] for j in fresh_ix]})['fresh']
+    fresh_by_case = {j: h for j, h in zip(fresh_ix, fresh)}
 
     # ---- model
     model = None
@@ -582,8 +666,9 @@ def run(ctx):
         ctx.count(1, key='%d|%d%d|%s' % (c['i'], fs, ex, json.dumps(d, sort_keys=True)), nontrivial=nontrivial_doc(d))
         ctx.hist('doc_kind', kind)
         ctx.hist('root', type(d).__name__)
-        bad = direct_predicate(res)
-        ctx.hist('outcome', 'loads' if bad is None else 'fails_at_' + bad[0])
+        bad = case_predicate(d, res)
+        is_doc = isinstance(d, (dict, list))
+        ctx.hist('outcome', ('loads' if is_doc else 'scalar_root_rejected') if bad is None else 'fails_at_' + bad[0])
         replay_obj = {'kind': 'doc', 'doc': d, 'fs': fs, 'ex': ex}
         # determinism / order independence
         h2 = regen_by_case[ci]
@@ -591,6 +676,14 @@ def run(ctx):
         if h1 != h2:
             ctx.violation('generation is not deterministic / depends on earlier runs: text hash %s vs %s for %s (fs=%s ex=%s)'
                           % (h1, h2, json.dumps(d)[:200], fs, ex), dict(replay_obj, kind='order'))
+        h3 = fresh_by_case.get(ci)
+        if h3 is not None:
+            ctx.hist('fresh_interpreter_pass', 'same' if h3 == h1 else 'differs')
+            if h3 != h1:
+                before = [cases[j]['doc'] for j in range(ci - ci % B, ci)]     # the history of this case in its batch
+                ctx.violation('generation depends on earlier runs in the same process: text hash %s after %d earlier generations, '
+                              '%s in a fresh interpreter, for %s (fs=%s ex=%s)' % (h1, len(before), h3, json.dumps(d)[:200], fs, ex),
+                              dict(replay_obj, kind='history', history=before[-400:]))
         regs = regions_of(d, fs, O)
         if res['gen'] == 'ok' and name_collision(res['decls']):
             regs.add('F14g')
@@ -608,7 +701,9 @@ def run(ctx):
             m_decls = m[1] if ex else m[0]
             m_accepts, m_safe, m_struct = m[2] == '1', m[3] == '1', m[4] == '1'
             ctx.hist('model_safe', 'schema_safe' if m_safe else ('struct_safe_only' if m_struct else 'outside'))
-            if res['gen'] == 'ok':
+            if res['gen'] == 'ok' and not is_doc:
+                ctx.disagreements_checked += 1       # model: RBad; the concrete violation is already recorded
+            elif res['gen'] == 'ok':
                 ctx.traces_validated += 1
                 if impl_show_decls(res['decls']) != m_decls:
                     n_dis += 1
@@ -629,6 +724,10 @@ def run(ctx):
                               % (bad[1], json.dumps(d)[:300], fs, ex), replay_obj)
             else:
                 ctx.hist('gen_raises', res['gen']['err'])
+                if not is_doc:
+                    ctx.traces_validated += 1
+                    if m_decls != 'BAD':
+                        ctx.broken_tie('model infers a schema for a scalar root', {'doc': d})
                 if m_safe:
                     ctx.violation('document inside schema_safe but generation raises %s: %s' % (res['gen']['err'], json.dumps(d)[:300]), replay_obj)
     # a failing case is reported only if it also fails alone in a fresh interpreter (no cross-talk
@@ -641,7 +740,7 @@ def run(ctx):
             continue
         seen.add(key)
         alone = ctx.impl('c19', {'cases': [{'doc': obj['doc'], 'fs': obj['fs'], 'ex': obj['ex']}]})['cases'][0]
-        if direct_predicate(alone) is not None:
+        if case_predicate(obj['doc'], alone) is not None:
             ctx.violation(what, obj)
         else:
             ctx.notes.append('case failed inside a batch but passes in a fresh interpreter: %s' % what[:300])
@@ -653,7 +752,7 @@ def run(ctx):
         ctx.sample({'doc': c['doc'], 'force_strings': c['fs'], 'experimental': c['ex'],
                     'decls': res.get('decls'), 'load': res.get('load')})
     for c, res in zip(cases, results):
-        if docs[c['i']][1] != 'fixed' and direct_predicate(res) is None and nontrivial_doc(c['doc']):
+        if docs[c['i']][1] == 'tame' and direct_predicate(res) is None and nontrivial_doc(c['doc']):
             ctx.sample({'doc': c['doc'], 'force_strings': c['fs'], 'experimental': c['ex'], 'decls': res.get('decls'), 'load': res.get('load')})
             break
 
@@ -702,6 +801,13 @@ def run(ctx):
 def replay(ctx, obj):
     if obj.get('kind') == 'cli':
         return replay_witness(ctx, obj)
+    if obj.get('kind') == 'history':
+        c = {'doc': obj['doc'], 'fs': obj['fs'], 'ex': obj['ex']}
+        hist = [{'doc': h, 'fs': obj['fs'], 'ex': obj['ex']} for h in obj.get('history', [])]
+        after = ctx.impl('c19', {'regen': hist + [c]})['regen'][-1]
+        alone = ctx.impl('c19', {'fresh': [c]})['fresh'][0]
+        print('text hash after %d earlier generations in one process: %s; in a fresh interpreter: %s' % (len(hist), after, alone))
+        return after == alone
     if obj.get('kind') in ('doc', 'order'):
         ok = replay_witness(ctx, obj)
         if obj['kind'] == 'order':
